@@ -28,10 +28,10 @@ func init() {
 				Blocks:   16,
 				Procs:    16,
 				Rule: "four generators. stack: histories of Push/Add/Pop/Clear with Len, IsEmpty, Top, Slice, Each (early stop), Peek(0..Len+1) after every op. mlink.Queue (zero value and NewQueue): Add/Pop/Clear incl. pop-to-empty-then-Add, with Len (constant-time counter) vs walked length, Front, Peek, Each. " +
-					"mlink.List: 20-60 edits through a population of 4-10 cursors obtained by At/Last/End/Find and moved by Next; Push/Add/Set/Remove/Truncate at any position incl. end-of-list, list Clear; after EVERY edit every cursor is re-checked (Get, AtEnd vs the model) and stale cursors are probed with every method: each must panic \"invalid cursor\" and leave Each unchanged (each probe is announced so that a hang is pinned to it). " +
+					"Large containers: stack and list queue grown to 3000..12000 and to 262143..1.2 M elements (5 M thorough), shrunk, regrown and drained with constant-time checks on every step and full comparisons at the turning points. mlink.List: 20-60 edits through a population of 4-10 cursors obtained by At/Last/End/Find and moved by Next; Push/Add/Set/Remove/Truncate at any position incl. end-of-list, list Clear; after EVERY edit every cursor is re-checked (Get, AtEnd vs the model) and stale cursors are probed with every method: each must panic \"invalid cursor\" and leave Each unchanged (each probe is announced so that a hang is pinned to it). " +
 					"ring: exhaustive Join over every pair of elements of every configuration of <= 7 elements in <= 2 rings (same ring at every distance, different rings, singletons) and random Of/New/Join/Pop histories over a pool of nodes; after every op a bounded structural walk (Next/Prev mutually inverse, cycles close at their length), the cycles compared with the documented result, At/Peek for every offset |n| != len in [-len-1,len+1], Len, Each with early stop. " +
 					"distinct = hash of the history; non-trivial = list history that created at least one stale cursor / ring case whose Join changed the cycles",
-				Required:     []string{"stack_steps", "queue_steps", "queue_add_after_pop_to_empty", "list_edits", "stale_probes", "stale_truncate_probes", "truncate_then_add_at_end", "set_at_end", "ring_join_same_ring", "ring_join_different_rings", "ring_join_noop", "ring_pops", "ring_exhaustive_cases", "large_histories", "sparse_observation_list_histories", "concurrent_instance_histories"},
+				Required:     []string{"stack_steps", "queue_steps", "queue_add_after_pop_to_empty", "list_edits", "stale_probes", "stale_truncate_probes", "truncate_then_add_at_end", "set_at_end", "ring_join_same_ring", "ring_join_different_rings", "ring_join_noop", "ring_pops", "ring_exhaustive_cases", "large_histories", "sparse_observation_list_histories", "concurrent_instance_histories", "very_large_containers"},
 				Exhaustive:   true,
 				Assumptions:  []string{"ring.At(n)/Peek(n) for |n| == Len is not constrained (doc comment and code disagree; the property is silent)", "Cursor.Add with no values is a no-op and is not used as a stale probe"},
 				CoverPkgs:    []string{"github.com/creachadair/mds/stack", "github.com/creachadair/mds/mlink", "github.com/creachadair/mds/ring"},
@@ -147,6 +147,16 @@ func c10stack(c *fw.Ctx, r *rand.Rand) {
 				return
 			}
 		}
+		if i%9 == 4 {
+			for _, k := range truncInts(len(ref)) {
+				if k > 0 {
+					if got, ok := s.Peek(k); ok || got != 0 {
+						fail("Peek(%d)=(%d,%v) want (0,false): far beyond the %d elements", k, got, ok, len(ref))
+						return
+					}
+				}
+			}
+		}
 		if i%16 == 0 {
 			if p, _ := fw.Panics(func() { s.Peek(-1) }); !p {
 				fail("Peek(-1) did not panic")
@@ -257,6 +267,16 @@ func c10queue(c *fw.Ctx, r *rand.Rand) {
 			if ok != wok || got != want {
 				fail("Peek(%d)=(%d,%v) want (%d,%v)", k, got, ok, want, wok)
 				return
+			}
+		}
+		if len(ref)%5 == 2 {
+			for _, k := range truncInts(len(ref)) {
+				if k > 0 {
+					if got, ok := q.Peek(k); ok || got != 0 {
+						fail("Peek(%d)=(%d,%v) want (0,false): far beyond the %d elements", k, got, ok, len(ref))
+						return
+					}
+				}
 			}
 		}
 	}
@@ -984,7 +1004,12 @@ func c10ringMisc(c *fw.Ctx) {
 // shrink again (buffer-management thresholds), with constant-time observations
 // on every step and the full comparison every 211 steps and at the turning points.
 func c10large(c *fw.Ctx, r *rand.Rand) {
-	n := []int{3000, 4100, 5000, 8200, 12000}[r.IntN(5)]
+	c10largeN(c, []int{3000, 4100, 5000, 8200, 12000}[r.IntN(5)])
+}
+
+// c10largeN: grow a stack and a list queue to n elements, shrink, regrow, drain.
+func c10largeN(c *fw.Ctx, n int) {
+	period, shrinkEvery := max(211, n/3), max(1024, n/4)
 	st := stack.New[int]()
 	q := mlink.NewQueue[int]()
 	var sref, qref []int
@@ -1034,7 +1059,7 @@ func c10large(c *fw.Ctx, r *rand.Rand) {
 			c.Fail(data, "step %d: queue Len=%d Front=%d want %d, %d", step, q.Len(), q.Front(), len(qref)-qhead, front)
 			return false
 		}
-		if step%211 == 0 {
+		if step%period == 0 {
 			return full("periodic check")
 		}
 		return true
@@ -1081,7 +1106,7 @@ func c10large(c *fw.Ctx, r *rand.Rand) {
 		if !pop() {
 			return
 		}
-		if len(sref)%1024 == 0 && !full("while shrinking") {
+		if len(sref)%shrinkEvery == 0 && !full("while shrinking") {
 			return
 		}
 	}
@@ -1179,5 +1204,19 @@ func runC10(c *fw.Ctx) {
 			}
 		}
 		idx += g.n
+	}
+	// very large containers: 300 000 .. 1.2 M elements (5 M thorough), one size per block
+	if c.Begin(idx + 7000000 + c.Block) {
+		sizes := []int{262143, 262144, 262145, 300000, 524289, 600000, 1048577, 1200000}
+		n := sizes[c.Block%len(sizes)]
+		if c.Thorough() && c.Block%4 == 0 {
+			n = 5000000
+		}
+		ok, pv, stack := fw.Try(func() { c10largeN(c, n) })
+		if !ok {
+			c.FailKind("panic", map[string]any{"type": "stack.Stack / mlink.Queue", "elements": n}, "panic: %v\n%s", pv, stack)
+		}
+		c.Add("very_large_containers", 1)
+		c.Max("max:container_elements", int64(n))
 	}
 }
